@@ -908,6 +908,15 @@ example : (run (treeFheUintPrepare .fft64 8 2 2 1 3 2 1 ⟨⟨1, 2, 13⟩, 1⟩ 
     ⟨4104, 56 + 2 * tbFheUintPrepare .fft64 8 1 ⟨⟨1, 2, 13⟩, 1⟩ ⟨1, 2, 13⟩ (brkK 1 2 12 1) ⟨1, 1, 2, 11, 1, 1⟩ ⟨1, 1, 2, 10, 1, 1⟩ ⟨1, 1, 2, 4, 1, 1⟩ none⟩).isOk = true := by
   decide
 
+/- FULL STATEMENT (false before docs/fixes/18): the per-thread size counted the circuit bootstrapping only; with a small
+   bootstrapping layout the bit extraction (`lwe_from_glwe`) needs more.  Witness reproduced on the real code (docs/C12.md §9). -/
+theorem fhe_uint_prepare_old_formula_counterexample :
+    (run (.par 1 (tbFheUintPrepareOld .fft64 32 2 ⟨⟨1, 2, 13⟩, 1⟩ ⟨1, 2, 13⟩ (brkK 1 2 12 1) ⟨1, 1, 2, 11, 1, 1⟩ ⟨1, 1, 2, 10, 1, 1⟩)
+        (treeFheUintPrepareWorker .fft64 32 2 2 5 2 1 ⟨⟨1, 2, 13⟩, 1⟩ ⟨1, 2, 13⟩ (brkK 1 2 12 1) ⟨1, 1, 2, 11, 1, 1⟩ ⟨1, 1, 2, 10, 1, 1⟩ ⟨1, 1, 2, 4, 2, 1⟩ none) .done)
+      ⟨4096, tbFheUintPrepareOld .fft64 32 2 ⟨⟨1, 2, 13⟩, 1⟩ ⟨1, 2, 13⟩ (brkK 1 2 12 1) ⟨1, 1, 2, 11, 1, 1⟩ ⟨1, 1, 2, 10, 1, 1⟩⟩).isOk = false ∧
+    tbFheUintPrepareOld .fft64 32 2 ⟨⟨1, 2, 13⟩, 1⟩ ⟨1, 2, 13⟩ (brkK 1 2 12 1) ⟨1, 1, 2, 11, 1, 1⟩ ⟨1, 1, 2, 10, 1, 1⟩ = 10496 := by
+  decide
+
 /-- the BDD blind rotations, the blind selection, the stateful blind retrieval and `GLWEBlindRetriever::retrieve`
 (docs/fixes/14: with the difference buffer of `cmux_assign_neg`) -/
 theorem bdd_blind_ops_ok (cells bitMask steps : Nat) (res : G) (k : K) (hn : n % 8 = 0)
